@@ -26,7 +26,7 @@ CLAIMS = {
         "the real TCP client are run on a link-time scripted socket layer under seeded random schedules (cache 1..64) and every recorded execution is "
         "validated by TLC against the same spec (only latitude: which finished handle a run hands back). Every third scenario runs the EXTENDING "
         "async service (extension requests with / without publication time, calendar-chain replies; a reply whose times do not fit its request fails that request only).",
-   note="Bounds: MC N=1/2 requests (quick, 1.5e6 states), N=2 with 2-3 requests (thorough); traces: 4-8 option groups x 25-120 schedules. The HTTP (curl multi) async client is covered on a scripted curl multi interface (constant Http, DispatchHttp, trace event HDone; defect F-C13-3 fixed, F-C13-4 recorded). Liveness: FairSpec |= EventuallyReturned (TCP and HTTP variants, N=1, 2 requests); defect F-C13-5 fixed. Not covered: pushed configurations. Known finding F-C13-1 (premature reply accepted). Trusted: TLC, tools/ksi.py reference aggregator, harness/drv_net.c socket script.",
+   note="Bounds: MC N=1 / 2 requests / clock <= 1 (quick, 1.3e6 states; clock <= 2 in thorough: 4.8e6), N=2 with 2-3 requests (thorough); traces: 4-8 option groups x 25-120 schedules. The HTTP (curl multi) async client is covered on a scripted curl multi interface (constant Http, DispatchHttp, trace event HDone; defect F-C13-3 fixed, F-C13-4 recorded). Liveness: FairSpec |= EventuallyReturned (TCP and HTTP variants, N=1, 2 requests); defect F-C13-5 fixed. Not covered: pushed configurations. Known finding F-C13-1 (premature reply accepted). Trusted: TLC, tools/ksi.py reference aggregator, harness/drv_net.c socket script.",
    technique="TLC model checking + TLC trace validation of executions of the real async service on scripted sockets"),
  "C14": dict(level="model_checking", design_ref="DESIGN.md 4/C14",
    text="TcpStream.tla has one action per system-call outcome of net_tcp_async.c dispatch() (poll, recv n/would-block/eof/reset, buffer full, send n/would-block/"
